@@ -26,7 +26,8 @@ def write_if_changed(path, text):
 # what each translator module writes (used to poison exactly those files when the module refuses the source)
 OUTPUTS = {'gen_tables': ['Tables.v'], 'gen_periodic': ['Periodic.v'], 'gen_transformers': ['Transformers.v'],
            'gen_network': ['NetworkGen.v'], 'gen_drawing': ['DrawingGen.v'], 'gen_circuit': ['CircuitGen.v'],
-           'gen_saveload': ['SaveLoadGen.v'], 'gen_annotation': ['AnnotationGen.v']}
+           'gen_saveload': ['SaveLoadGen.v'], 'gen_annotation': ['AnnotationGen.v'], 'gen_format': ['FormatGen.v'],
+           'gen_matrix': ['MatrixGen.v']}
 
 
 def poison(module, reason):
